@@ -137,7 +137,7 @@ def main():
         if tr['act']['op'] in ('badkey', 'badval', 'clear', 'delitem', 'pop', 'popitem'):
             continue
         path = g.path_to(tr['from'])
-        if job.get('stored') and tr['act']['op'] in ('setitem', 'insert') and not embeds_(tr['from']) and tr['from']['kids']:
+        if job.get('stored') and tr['act']['op'] in ('setitem', 'insert') and tr['from']['kids']:
             # ---- the same insert on a *stored* tree with every node evicted: loading the nodes on the way allocates too
             #      (their vectors), and a load that fails leaves a ghost behind, not a half-built node
             from harness import minijar
@@ -145,8 +145,19 @@ def main():
             def stored():
                 t_ = build(path)
                 jar_ = minijar.Jar(minijar.Store())
-                jar_.add(t_)
+                # every node gets a record of its own (parents first), so that no leaf is written inline: the tree comes back
+                # from the store exactly as it is (the inline form under a database is finding D18)
+                todo = [t_]
+                while todo:
+                    n_ = todo.pop(0)
+                    jar_.add(n_)
+                    if hasattr(n_, '_firstbucket'):
+                        st_ = n_.__getstate__()
+                        if st_ is not None:
+                            todo.extend([n_._firstbucket] if len(st_) == 1 else list(st_[0][0::2]))
                 jar_.commit()
+                jar_.log = []           # (the stand-in's call log would keep every node alive)
+                del todo, n_, st_
                 jar_.cache.minimize()
                 return t_, jar_
             before_c = contents(setify(tr['from']))
